@@ -34,7 +34,11 @@ EXTRA = {"C01-3": ["C12"], "C10-3": ["C12"], "C07-1": ["C04"], "C17-1": ["C02"],
          "C17-30": ["C04"], "C17-28": ["C02"], "C05-29": ["C01"], "C03-29": ["C01"], "C17-27": ["C07"],
          "C01-31": ["C12"], "C01-33": ["C12"], "C03-33": ["C17"], "C08-33": ["C17"], "C06-32": ["C05"], "C13-32": ["C09"], "C13-33": ["C14"],
          "C14-32": ["C12"], "C15-33": ["C17", "C12"], "C17-32": ["C02"], "C17-33": ["C07"], "C18-31": ["C20", "C12"], "C18-32": ["C15"],
-         "C18-33": ["C12"], "C12-28": ["C16"], "C12-29": ["C09"]}
+         "C18-33": ["C12"], "C12-28": ["C16"], "C12-29": ["C09"],
+         "C01-35": ["C09"], "C02-35": ["C09"], "C04-34": ["C09"], "C05-34": ["C09"], "C06-34": ["C09"], "C07-35": ["C09"], "C18-34": ["C09"],
+         "C19-35": ["C09"], "C07-34": ["C01"], "C08-35": ["C01"], "C11-35": ["C01"], "C06-35": ["C14"], "C11-34": ["C14"],
+         "C10-34": ["C12"], "C10-35": ["C12"], "C18-35": ["C12"], "C05-35": ["C12"], "C04-35": ["C14", "C13"], "C17-35": ["C15"], "C17-34": ["C15"],
+         "C12-34": ["C15"], "C12-35": ["C15"], "C08-34": ["C13"], "C03-35": ["C12"], "C13-35": ["C15"], "C20-35": ["C16"]}
 
 
 def run(name):
